@@ -54,18 +54,9 @@ SameNameCases ==
              L2("names", <<P("name", "str", "EIter")>>, "iter", <<>>),
              L2("iter", <<P("name", "str", "ENames")>>, "names", <<>>),
              L2("MIN", <<P("name", "str", "EIter")>>, "iter", <<>>)}}
-\* the names of hidden helpers are not reserved: where the helper itself is NOT generated (its feature was requested under
-\* another name, or nothing needs it) the user may choose such a name for another item
-L3(a, pa, b, pb, c3) == [attrs |-> <<<<IF pa = <<>> THEN E(a, "path", <<>>) ELSE E(a, "list", pa), IF pb = <<>> THEN E(b, "path", <<>>) ELSE E(b, "list", pb)>>
-                                     \o (IF c3 = "" THEN <<>> ELSE <<E(c3, "path", <<>>)>>)>>, varattr |-> NoVA]
-HiddenNameCases ==
-  {[enumvis |-> "public", cfg |-> cf, gapless |-> gl] : gl \in BOOLEAN,
-     cf \in {L3("MIN", <<P("name", "str", "FIRST")>>, "MAX", <<P("name", "str", "__MIN")>>, ""),
-             L3("as_str", <<P("name", "str", "label")>>, "from_str", <<P("name", "str", "__as_str")>>, "Display"),
-             L3("TryFrom", <<>>, "from_str", <<P("name", "str", "__try_from")>>, ""),
-             L3("iter", <<P("name", "str", "all")>>, "names", <<P("name", "str", "__iter")>>, "")}}
-  \cup {[enumvis |-> "public", cfg |-> L3("next", <<>>, "into", <<P("name", "str", "__RANGES")>>, ""), gapless |-> TRUE]}
-StdCases == Cases \cup SameNameCases \cup HiddenNameCases \cup {x \in PairCases : \A p, q \in Entries(x.cfg) : p # q => EntryAt(x.cfg, p).f # EntryAt(x.cfg, q).f}
+\* (user-chosen names that begin with `__` -- the derive's own namespace for hidden helpers -- are not demanded: a refactoring
+\*  that introduces a new hidden helper must stay possible)
+StdCases == Cases \cup SameNameCases \cup {x \in PairCases : \A p, q \in Entries(x.cfg) : p # q => EntryAt(x.cfg, p).f # EntryAt(x.cfg, q).f}
 \* shape-specific code paths may emit their own helper items: the same feature sets on an enum with many runs
 \* (12 singletons, i16) and on a large gapless enum (70 variants, i8 from -35); `shape` only selects the rendered body
 Sh(x, sh) == [enumvis |-> x.enumvis, cfg |-> x.cfg, gapless |-> x.gapless, shape |-> sh]
